@@ -212,7 +212,8 @@ pub fn shape_of_arch(arch: ZkStdLibArch) -> (usize, usize, usize) {
 /// Values of the column-count constants, in the order of `Gen.colConstNames` (read from the
 /// generated Lean file so that harness and model agree on the order).
 pub fn col_consts() -> String {
-    let gen = std::fs::read_to_string("/verif/lean/MidnightZK/Gen/C16Consts.lean").expect("Gen/C16Consts.lean");
+    let gen = std::fs::read_to_string(concat!(env!("CARGO_MANIFEST_DIR"), "/../../lean/MidnightZK/Gen/C16Consts.lean"))
+        .expect("Gen/C16Consts.lean");
     let line = gen.lines().find(|l| l.starts_with("def colConstNames")).expect("colConstNames");
     let names: Vec<&str> = line.split('"').skip(1).step_by(2).collect();
     let secp = max(
